@@ -100,7 +100,17 @@ def forms(tier):
     for m in ['bt', 'bts', 'btr', 'btc']:
         F += [('%s DWORD PTR [esi], ebx' % m, 'mbit'), ('%s WORD PTR [esi], bx' % m, 'mbit')]
         F += [('%s DWORD PTR [esi], 37' % m, 'm'), ('%s DWORD PTR [esi], 255' % m, 'm'), ('%s WORD PTR [esi], 17' % m, 'm')]
+    # data movement through segment registers: far-pointer loads (m16:16 and m16:32), mov/push/pop of a segment register.
+    # The runner loads es/fs/gs from the state and reports es/ds/fs/gs/ss; selectors are the loadable ones of a ring-3 process.
+    F += [('les eax, [esi]', 'far32'), ('les bx, [esi]', 'far16'), ('lds ebx, [esi]', 'far32'), ('lds ax, [esi]', 'far16'), ('lss eax, [esi]', 'far32'), ('lss cx, [esi]', 'far16'),
+          ('mov ax, es', 'seg'), ('mov eax, es', 'seg'), ('mov ebx, fs', 'seg'), ('mov cx, gs', 'seg'), ('mov eax, ds', 'seg'), ('mov eax, cs', 'seg'),
+          ('mov WORD PTR [esi], es', 'seg'), ('mov WORD PTR [esi], gs', 'seg'), ('push es', 'seg'), ('push fs', 'seg'), ('push gs', 'seg'), ('push ds', 'seg'), ('push cs', 'seg'),
+          ('mov es, ax', 'sel-r'), ('mov fs, bx', 'sel-r'), ('mov gs, eax', 'sel-r'), ('mov es, WORD PTR [esi]', 'sel-m'), ('mov fs, WORD PTR [esi]', 'sel-m'),
+          ('pop es', 'sel-stk'), ('pop fs', 'sel-stk'), ('pop gs', 'sel-stk'), ('pop ds', 'sel-stk')]
     return F
+
+
+SELECTORS = [cpu.USER_DS, cpu.USER_DS ^ 1, cpu.USER_CS, 0, 3]       # flat data (RPL 3 / RPL 2), flat code, null selectors
 
 
 IMPLICIT = {'mul': ['eax', 'edx'], 'imul1': ['eax', 'edx'], 'div': ['eax', 'edx'], 'idiv': ['eax', 'edx']}
@@ -243,6 +253,27 @@ def states_for(line, kind, seed):
                 for y in VSMALL:
                     for fl in flagsets:
                         S.append((dict(base, eax=x), dict(fl, df=df), ('both', x ^ 0x5a5a5a5a, y)))
+    elif kind in ('far32', 'far16'):
+        for off in VSMALL:
+            for sel in SELECTORS:
+                for other in (0x5a5a, cpu.USER_DS):       # the word at the other layout's selector position
+                    add(dict(base), (kind, off, sel, other))
+    elif kind == 'seg':
+        for sel in SELECTORS:
+            for x in (0, 0xffffffff):
+                add(dict(base, eax=x, ebx=x, ecx=x, es=sel, fs=sel ^ 1 if sel > 3 else sel, gs=sel))
+    elif kind == 'sel-r':
+        for sel in SELECTORS:
+            for hi in (0, 0xffff0000):
+                add(dict(base, eax=hi | sel, ebx=hi | sel))
+    elif kind == 'sel-m':
+        for sel in SELECTORS:
+            for hi in (0, 0xffff0000):
+                add(dict(base), hi | sel)
+    elif kind == 'sel-stk':
+        for sel in SELECTORS:
+            for hi in (0, 0xffff0000):
+                add(dict(base), ('stack', hi | sel))
     elif kind == 'xlat':
         for x in (0, 1, 0x7f, 0x80, 0xff):
             add(dict(base, ebx=cpu.WIN, eax=0x11223300 | x))
@@ -263,6 +294,15 @@ def mem_image(line, memval, regs):
         if 'ebp' in regs and cpu.WIN <= regs['ebp'] < cpu.WIN + 252:
             o2 = regs['ebp'] - cpu.WIN
             img[o2:o2 + 4] = (memval[1] & 0xffffffff).to_bytes(4, 'little')
+        return bytes(img)
+    if isinstance(memval, tuple) and memval[0] in ('far32', 'far16'):
+        o1 = regs['esi'] - cpu.WIN
+        if memval[0] == 'far32':
+            img[o1:o1 + 6] = (memval[1] & 0xffffffff).to_bytes(4, 'little') + memval[2].to_bytes(2, 'little')
+            if memval[3] != 0x5a5a:
+                img[o1 + 2:o1 + 4] = memval[3].to_bytes(2, 'little')
+        else:
+            img[o1:o1 + 6] = (memval[1] & 0xffff).to_bytes(2, 'little') + memval[2].to_bytes(2, 'little') + memval[3].to_bytes(2, 'little')
         return bytes(img)
     if isinstance(memval, tuple) and memval[0] == 'both':
         o1, o2 = regs['esi'] - cpu.WIN, regs['edi'] - cpu.WIN
@@ -334,8 +374,9 @@ def miasm_post(lifted, regs, fl, eflags, img):
     for name, bit in (('tf', 8), ('i_f', 9), ('nt', 14), ('rf', 16), ('vm', 17), ('ac', 18), ('vif', 19), ('vip', 20), ('i_d', 21)):
         ids[name] = (eflags >> bit) & 1
     ids['iopl_f'] = (eflags >> 12) & 3
-    for s in ('cs', 'ds', 'es', 'ss', 'fs', 'gs'):
-        ids[s] = 0
+    for s in ('ds', 'es', 'ss', 'fs', 'gs'):
+        ids.setdefault(s, cpu.USER_DS)
+    ids['cs'] = cpu.USER_CS
     ids.update({'dr7': 0, 'cr0': 0, 'eip': cpu.ENTRY})
     mem = {cpu.WIN + i: img[i] for i in range(256)}
     env = irsem.Env(ids, mem, 0)
@@ -413,8 +454,13 @@ def compare(line, mn, regs, fl, memval, res, lifted, eflags, img, blen):
         c = (res['eflags'] >> cpu.FLAGBITS[f]) & 1
         if post[f] & 1 != c or post[f] > 1:
             return ('flag:%s' % f, '%s = %#x, processor %d' % (f, post[f], c))
+    for sg in ('es', 'ds', 'fs', 'gs', 'ss'):
+        if post[sg] & 0xffff != res['segs'][sg]:
+            return ('seg', '%s = %#x, processor %#x' % (sg, post[sg], res['segs'][sg]))
     if 'dst' not in und:
         for i in range(256):
+            if mn == 'push' and re.search(r'push\s+[c-gs]s$', line) and regs['esp'] - cpu.WIN - 2 <= i < regs['esp'] - cpu.WIN:
+                continue        # push sreg, 32-bit: the upper half of the slot is zero or left unmodified (SDM: model specific)
             if pmem.get(cpu.WIN + i, img[i]) != res['mem'][i]:
                 return ('mem', 'byte at window+%d = %#x, processor %#x' % (i, pmem.get(cpu.WIN + i, img[i]), res['mem'][i]))
         extra = [a for a in pmem if not (cpu.WIN <= a < cpu.WIN + 256)]
@@ -484,7 +530,7 @@ def shard(s, ns, tier, seed):
             for f, v in fl.items():
                 eflags |= v << cpu.FLAGBITS[f]
             img = mem_image(line, memval, regs)
-            recs.append(dict(code=b, regs=regs, eflags=eflags, mem=img))
+            recs.append(dict(code=b, regs=regs, eflags=eflags, mem=img, segs={k_: regs.get(k_, cpu.USER_DS) for k_ in ('es', 'fs', 'gs')}))
         results = cpu.run_batch(recs)
         for (regs, fl, memval), rec, res in zip(S, recs, results):
             try:
@@ -546,7 +592,7 @@ def replay(w):
     for f, v in fl.items():
         eflags |= v << cpu.FLAGBITS[f]
     img = mem_image(line, memval, regs)
-    res = cpu.run_batch([dict(code=b, regs=regs, eflags=eflags, mem=img)])[0]
+    res = cpu.run_batch([dict(code=b, regs=regs, eflags=eflags, mem=img, segs={k_: regs.get(k_, cpu.USER_DS) for k_ in ('es', 'fs', 'gs')})])[0]
     r = compare(line, line.split()[0], regs, fl, memval, res, lifted, eflags, img, len(b))
     if r and r != 'fault':
         return True, '%s: %s: %s' % (line, r[0], r[1])
